@@ -29,6 +29,54 @@ theorem lpUpdate_ok (lp : LiqProt) (h : LpInv lp = true) :
       refine ⟨⟨true, mx, cur + mx / el, el⟩, by simp [hr, Uint.add, Uint.chk, hlt, Except.map], ?_, rfl, rfl, rfl⟩
       rw [LpInv_iff]; exact ⟨fun _ => he, hle, h3⟩
 
+/-- a swap (the only permissionless write to this state) that does not panic keeps the invariant;
+    buying never panics under the invariant -/
+theorem lpUserUpdate_inv (lp lp' : LiqProt) (sell : Bool) (v : Nat) (h : LpInv lp = true)
+    (hr : lpUserUpdate lp sell v = .ok lp') : LpInv lp' = true := by
+  obtain ⟨h1, h2, h3⟩ := (LpInv_iff lp).1 h
+  obtain ⟨act, mx, cur, el⟩ := lp
+  simp only at h1 h2 h3
+  unfold lpUserUpdate at hr
+  cases act
+  · cases hr; exact h
+  · simp only [if_true] at hr
+    cases sell
+    · -- buy
+      simp only [Bool.false_eq_true, if_false, Uint.sub, h2, if_true, Except.bind, lpBuy] at hr
+      by_cases hrm : mx - cur < v
+      · rw [if_pos hrm] at hr; cases hr
+        rw [LpInv_iff]; exact ⟨h1, le_refl _, h3⟩
+      · rw [if_neg hrm] at hr
+        have hle : cur + v ≤ mx := by omega
+        have hlt : cur + v < two256 := lt_of_le_of_lt hle h3
+        simp only [Uint.add, Uint.chk, hlt, if_true, Except.map] at hr
+        cases hr
+        rw [LpInv_iff]; exact ⟨h1, hle, h3⟩
+    · -- sell
+      simp only [if_true] at hr
+      by_cases hc : cur < v
+      · rw [if_pos hc] at hr; cases hr
+      · rw [if_neg hc] at hr
+        have : v ≤ cur := by omega
+        simp only [Uint.sub, this, if_true, Except.map] at hr
+        cases hr
+        rw [LpInv_iff]; exact ⟨h1, by show cur - v ≤ mx; omega, h3⟩
+
+theorem lpUserUpdate_buy_ok (lp : LiqProt) (v : Nat) (h : LpInv lp = true) : ∃ lp', lpUserUpdate lp false v = .ok lp' := by
+  obtain ⟨h1, h2, h3⟩ := (LpInv_iff lp).1 h
+  obtain ⟨act, mx, cur, el⟩ := lp
+  simp only at h1 h2 h3
+  unfold lpUserUpdate
+  cases act
+  · exact ⟨_, rfl⟩
+  · simp only [if_true, Bool.false_eq_true, if_false, Uint.sub, h2, Except.bind, lpBuy]
+    by_cases hrm : mx - cur < v
+    · rw [if_pos hrm]; exact ⟨_, rfl⟩
+    · rw [if_neg hrm]
+      have hlt : cur + v < two256 := lt_of_le_of_lt (by omega) h3
+      simp only [Uint.add, Uint.chk, hlt, if_true, Except.map]
+      exact ⟨_, rfl⟩
+
 /-! ### peeling clause lists -/
 
 theorem acceptsAll_cons (e : Env) (c : Clause) (cs : List Clause) :
